@@ -13,6 +13,8 @@
 
 using namespace photon;
 static const uint64_t TMO = 40;
+static const uint64_t FOREVER = 1000 * 1000;      // stand-in for "no timeout" in generated programs (virtual time)
+static void judge_quiescence(const char* dump, bool final);
 
 struct St {
     semaphore* sem; bool in_order; uint64_t init;
@@ -24,6 +26,8 @@ struct St {
     semaphore* priv[16] = {nullptr};
     std::string log;                       // global completion order of ops
     std::atomic<int> priv_ready[16];
+    uint64_t judged_jump = ~0ull; int nwaits = 0;
+    bool gen = false;                      // generated program: "forever" is a 1 s stand-in so that every run ends and the runner process is reused
 };
 static St* G;
 
@@ -33,6 +37,7 @@ static void body(mvprog::PT& p) {
         char op = ops[i];
         if (op == 'y') { thread_yield(); continue; }
         if (op == 'p') { int npad = pmc_choose(3, PMC_PROG, 0, "pad yields"); for (int kk = 0; kk < npad; kk++) thread_yield(); continue; }   // every arrival order on one vCPU
+        if (op == 'q') { if (pmc_choose(2, PMC_PROG, 0, "pad yield")) thread_yield(); continue; }
         if (op == 'D') {
             auto s = new (G->priv_buf[p.idx]) semaphore(0);
             G->priv[p.idx] = s; G->priv_ready[p.idx] = 1;
@@ -56,10 +61,21 @@ static void body(mvprog::PT& p) {
         uint64_t sw0 = *(uint64_t*)&photon::get_vcpu()->switch_count;     // (cast: plain read, not a scheduling point)
         G->blocked_demand[p.idx] = n;
         errno = 0; int r;
-        if (op == 'w') r = G->sem->wait(n);
-        else if (op == 'W') r = G->sem->wait_interruptible(n);
+        uint64_t forever = FOREVER + 10000ull * (G->nwaits++ % 50);      // distinct stand-in deadlines: two "forever" waits never expire together
+        if (op == 'w') r = G->gen ? G->sem->wait(n, forever) : G->sem->wait(n);
+        else if (op == 'W') r = G->gen ? G->sem->wait_interruptible(n, forever) : G->sem->wait_interruptible(n);
         else { mv_register_deadline(mv_now() + TMO); r = G->sem->wait_interruptible(n, TMO); }
         int e = errno;
+        if (G->gen && r != 0 && e == ETIMEDOUT && op != 't') {
+            // the stand-in for "forever" expired: virtual time only moves when nobody can run, so this is the quiescent state a real
+            // program would be stuck in. Judge it exactly like a deadlock, then let the program go on.
+            if (mv_now() < t0 + forever) pmc_violation("wait-failed-without-reason", "untimed wait returned ETIMEDOUT after %llu us", (unsigned long long)(mv_now() - t0));
+            // only the first thread to run after the clock jumped sees the quiescent state itself
+            if (G->judged_jump != mv_time_jumps()) { G->judged_jump = mv_time_jumps(); judge_quiescence("stand-in timeout", false); }
+            G->blocked_demand[p.idx] = 0;
+            G->log += char('a' + p.idx); G->log += 'b'; p.result += "b";
+            continue;
+        }
         G->blocked_demand[p.idx] = 0;
         bool slept = *(uint64_t*)&photon::get_vcpu()->switch_count != sw0;
         G->log += char('a' + p.idx); G->log += (r == 0 ? '1' : '0'); if (slept) G->log += 'z';
@@ -80,19 +96,23 @@ static void ledger(const char* when) {
                       (unsigned long long)G->signalled, (unsigned long long)G->taken, (unsigned long long)cnt);
 }
 
-static void on_deadlock(const char* dump) {
+static void judge_quiescence(const char* dump, bool final) {
     // nobody can run: every blocked waiter must be legitimately short of tokens
     uint64_t cnt = G->sem->count(); int nb = 0; int mn = 1 << 30, mx = 0;
     for (int k = 0; k < 16; k++) if (G->blocked_demand[k]) { nb++; mn = std::min(mn, G->blocked_demand[k]); mx = std::max(mx, G->blocked_demand[k]); }
-    for (auto& p : G->prog.pts) if (!p.done && !G->blocked_demand[p.idx])
+    if (final) for (auto& p : G->prog.pts) if (!p.done && !G->blocked_demand[p.idx])
         pmc_violation("deadlock", "thread %d is stuck outside a semaphore wait: %s", p.idx, dump);
-    if (!nb) pmc_violation("deadlock", "nothing runnable: %s", dump);
+    if (!nb) { if (final) pmc_violation("deadlock", "nothing runnable: %s", dump); return; }
     // in-order: the head (unknown which of the blocked ones) is covered for sure if count >= the largest demand;
     // out-of-order: any waiter covered is a lost wake-up
     if ((G->in_order && cnt >= (uint64_t)mx) || (!G->in_order && cnt >= (uint64_t)mn))
         pmc_violation("lost-wakeup", "%d waiter(s) blocked forever (demands %d..%d) while count=%llu covers them (%s mode): %s", nb, mn, mx,
                       (unsigned long long)cnt, G->in_order ? "in-order" : "out-of-order", dump);
     ledger("blocked-quiescence");
+}
+static void on_deadlock(const char* dump) {
+    judge_quiescence(dump, true);
+    uint64_t cnt = G->sem->count(); int nb = 0; for (int k = 0; k < 16; k++) if (G->blocked_demand[k]) nb++;
     pmc_obs("%s blocked=%d count=%llu", G->prog.results().c_str(), nb, (unsigned long long)cnt);
     pmc_done();
 }
@@ -105,7 +125,8 @@ void pmc_run(const char* config) {
     st.init = init; st.in_order = (mode == 'i');
     for (auto& a : st.priv_ready) a = 0;
     st.sem = new semaphore(init, st.in_order);
-    st.prog.parse(prog);
+    pmc_window(1);     // generated programs are explorer choices
+    if (st.prog.parse_or_generate(prog, {"w1", "w2", "W1", "t1", "t2", "s1", "s2", "i0", "i1"})) { st.gen = true; st.log = st.prog.generated + " "; }
     pmc_window(0);
     mv_init(); mvp::use_fast_stacks();
     mv_on_deadlock = on_deadlock;
@@ -145,6 +166,12 @@ static const PmcConfig CFG[] = {
     {"1i:pw2,pt1,ps1,ppi1:tdev", 2, {0,0}, {1,2}, {0,0}, {0,0}, ""},
     {"0i:w1,t1|s1|s1:tdev",   2, {1,2}, {1,1}, {0,0}, {2,2}, "three vCPUs"},
     {"0o:w1,w2,w1|s2s2",      2, {1,2}, {0,0}, {0,0}, {0,0}, "ooo with three waiters"},
+    {"0i:gen3x1:tdev",        3, {0,0}, {0,1}, {0,0}, {0,0}, "generated: every 3-thread program with one op each from {w1,w2,W1,t1,t2,s1,s2,i0,i1}, every arrival order, a timeout anywhere"},
+    {"0i:gen2x2:tdev",        3, {0,0}, {0,1}, {0,0}, {0,0}, "generated: 2 threads x up to 2 ops"},
+    {"0o:gen3x1:tdev",        3, {0,0}, {0,1}, {0,0}, {0,0}, "out-of-order mode"},
+    {"1i:gen3x2",             2, {0,0}, {0,0}, {0,0}, {0,0}, "generated: 3 threads x up to 2 ops"},
+    {"0o:gen3x2",             2, {0,0}, {0,0}, {0,0}, {0,0}, ""},
+    {"0i:gen2x3+:tdev",       2, {0,0}, {1,1}, {0,0}, {0,0}, ""},
     {"0i:w1|s1:tso",          3, {1,2}, {0,0}, {1,1}, {2,3}, "x86-TSO store buffers"},
     {"0o:w2,w1|s1s2:tso",     3, {1,1}, {0,0}, {1,1}, {2,2}, ""},
     {"0i:w1|@s1:tso",         2, {1,2}, {0,0}, {1,1}, {2,3}, ""},
